@@ -151,7 +151,11 @@ class BooleanOptionalAction(argparse.Action):
     ):
         # NOTE: `option_string` is only None when using a positional argument.
         if option_string is None:
-            raise NotImplementedError("This action doesn't support positional arguments yet.")
+            # Positional argument: either the default (when omitted) or a value to parse.
+            if isinstance(values, str):
+                values = self.type(values)
+            setattr(namespace, self.dest, values)
+            return
         assert option_string in self.option_strings
 
         used_negative_flag = option_string in self.negative_option_strings
